@@ -314,7 +314,6 @@ def compile_logical_or_and_and_operator(compiler, expr, operator, args):
         if var is None:
             var = compiler.get_anon_var()
         name = asty.Name(node, id=var, ctx=ast.Store())
-        ret.temp_variables.append(name)
         can_append = False
         return (assignment := asty.Assign(node, targets=[name], value=value))
 
@@ -323,7 +322,6 @@ def compile_logical_or_and_and_operator(compiler, expr, operator, args):
         if var is None:
             stmts.append(put(node, ret.force_expr))
         name = asty.Name(node, id=var, ctx=ast.Load())
-        ret.temp_variables.append(name)
         return name
 
     for value in map(compiler.compile, args):
@@ -364,6 +362,13 @@ def compile_logical_or_and_and_operator(compiler, expr, operator, args):
 
     if var:
         ret.expr = get(expr)
+    if len(args) > 1:
+        # The value of the whole form is no longer just the value of
+        # the first operand, so `compile_assign` mustn't rename the
+        # first operand's temporary variables to the assignment
+        # target. Nor can our own temporary be renamed: it's stored to
+        # between the evaluations of the operands.
+        ret.temp_variables = []
     return ret
 
 
